@@ -115,7 +115,7 @@ def spec_tree() -> Dict[str, Any]:
     e1 = {"type": "ECU-VARIANT", "name": "TE1", "parents": [{"layer": "TB", "not_inherited": {"comms": ["svc_b"], "dops": ["bu8alt"]}}],
           "dops": [{"name": "e1u8", "dct": U(8)}, {"name": "e1u16", "dct": U(16)}]}
     e2 = {"type": "ECU-VARIANT", "name": "TE2", "parents": [{"layer": "TB"}],
-          "msgs": [{"kind": "REQUEST", "name": "RQ_c", "params": [cc("sid", 0x25, 0), val("z", "bu8", 1)]},
+          "msgs": [{"kind": "REQUEST", "name": "RQ_c", "params": [cc("sid", 0x25, 0), val("z", "bu8", 1, snref=True)]},
                    {"kind": "POS-RESPONSE", "name": "PR_c", "params": [cc("sid", 0x65, 0), mrp("z", 1, 1, 1)]}],
           "svcs": [{"name": "svc_c", "request": "RQ_c", "pos": ["PR_c"]}],
           "comparams": [cp("CP_D", 40)]}
@@ -148,6 +148,23 @@ def pdx_files(path: str) -> Files:
             if suffix.startswith("odx"):
                 out[n] = z.read(n).decode("utf-8")
     return out
+
+
+def pdx_aux(path: str) -> Dict[str, bytes]:
+    """The other members of a PDX archive (index.xml, auxiliary files such as job code)."""
+    out: Dict[str, bytes] = {}
+    with zipfile.ZipFile(path) as z:
+        for n in z.namelist():
+            suffix = n.rsplit(".", 1)[-1].lower() if "." in n else ""
+            if not suffix.startswith("odx"):
+                out[n] = z.read(n)
+    return out
+
+
+def base_aux(db_id: str, repo: str) -> Dict[str, bytes]:
+    if db_id in GENERATED:
+        return {}
+    return pdx_aux(repo + "/examples/" + db_id + ".pdx")
 
 
 def base_files(db_id: str, repo: str) -> Files:
